@@ -484,14 +484,27 @@ type Chooser interface {
 }
 
 // Image rebuilds the disk as of "just before op q" (ops [0,q) applied) and
-// applies a crash of the given mode. The result is an independent Disk with
-// logging off... (its own log restarts; Seq continues from q).
+// applies a crash of the given mode. The result is an independent Disk whose
+// own op log starts empty (so that crash points of the *recovery* can be
+// enumerated in turn, see ReplayAndCrash).
 func Image(log []Op, q int, mode CrashMode, ch Chooser) *Disk {
+	d := New()
+	d.ReplayAndCrash(log, q, mode, ch)
+	return d
+}
+
+// ReplayAndCrash applies ops log[:q] on top of d's current state (d must be
+// in the state the log was recorded from: node ids line up), then crashes d
+// in place. Used for nested crashes: Image(...) then ReplayAndCrash(recovery
+// log of that image, q2, ...).
+func (d *Disk) ReplayAndCrash(log []Op, q int, mode CrashMode, ch Chooser) {
+	d.mu.Lock()
+	defer d.mu.Unlock()
 	if q > len(log) {
 		q = len(log)
 	}
-	d := New()
 	d.logging = false
+	d.log = nil
 	for _, op := range log[:q] {
 		d.replayOp(op)
 	}
@@ -499,7 +512,6 @@ func Image(log []Op, q int, mode CrashMode, ch Chooser) *Disk {
 	d.logging = true
 	d.log = nil
 	d.OpCounts = map[string]int64{}
-	return d
 }
 
 func (d *Disk) replayOp(op Op) {
@@ -1072,4 +1084,21 @@ func (d *Disk) Dump() string {
 	}
 	walk(d.root, "")
 	return sb.String()
+}
+
+// SeedChooser is a deterministic Chooser (splitmix64) for torn-image
+// decisions: seeded from one tape draw plus the crash point, so that a replay
+// is a pure function of the tape while the tape stays short.
+type SeedChooser struct{ S uint64 }
+
+func (c *SeedChooser) Intn(n int, label string) int {
+	if n <= 1 {
+		return 0
+	}
+	c.S += 0x9e3779b97f4a7c15
+	z := c.S
+	z = (z ^ (z >> 30)) * 0xbf58476d1ce4e5b9
+	z = (z ^ (z >> 27)) * 0x94d049bb133111eb
+	z ^= z >> 31
+	return int(z % uint64(n))
 }
